@@ -165,7 +165,7 @@ func ProbePasses(cfg Config, p Probe) bool {
 	return p.PingFail == 0 && p.SelFail == 0
 }
 
-// ReplVerdict: healthy | unhealthy | error | disabled.
+// ReplVerdict: healthy | unhealthy | unknown | error | disabled.
 func ReplVerdict(cfg Config, r Repl) string {
 	if cfg.SBM == 0 {
 		return "disabled"
@@ -180,7 +180,10 @@ func ReplVerdict(cfg Config, r Repl) string {
 		return "unhealthy"
 	}
 	if (r.IO != "" && r.IO != "Yes") || (r.SQL != "" && r.SQL != "Yes") {
-		return "unhealthy"
+		return "unhealthy" // also with NULL lag: a stopped or connecting thread marks the replica down
+	}
+	if r.Lag < 0 {
+		return "unknown" // NULL lag although both threads report Yes: MySQL does not produce it; not judged
 	}
 	return "healthy"
 }
@@ -539,6 +542,9 @@ func Run(cfg Config, ops []Op) (tr Trace) {
 					case "unhealthy":
 						st.Cat, st.Why = "repl_down", "replication lag over the limit or a replication thread stopped"
 						st.AllowDown = true
+					case "unknown":
+						st.Cat, st.Why = "repl_null_lag_running_threads", "NULL lag with both threads running: either accepted"
+						st.AllowDown, st.AllowUp = true, true
 					case "error":
 						st.Cat, st.Why = "repl_error", "SHOW SLAVE STATUS failed: not up unless it was up; down accepted"
 						st.AllowDown, st.AllowUp = true, st.Before
